@@ -107,8 +107,12 @@ def support_ok(res, sup, pos=None):
     return None if same_class(c, sup["v"]) else {attr: c.tolist(), "expected": sup["v"]}
 
 
-def make_op(g, op, M):
-    t = g.Transformation(np.array(M))
+def make_op(g, op, M, reused=False):
+    if reused:
+        from .invariance import reused_transformation
+        t = reused_transformation(g, M)
+    else:
+        t = g.Transformation(np.array(M))
     if op[0] == "apply":
         return t
     if op[0] == "inv":
@@ -123,11 +127,11 @@ def replay(recs):
         dim, x0, hist, exp, stratum = r["d"], r["x"], r["h"], r["c"], r["s"]
         case = {"d": dim, "x": x0, "h": hist, "ms": r["ms"]}
         site0 = f"{x0['k']}/{dim}D"
-        for variant in ("sequential", "apply()", "composite"):
+        for variant in ("sequential", "apply()", "composite", "transformation-edited-in-place"):
             try:
                 x = build_any(x0, dim)
-                ts = [make_op(g, op, M) for op, M in zip(hist, r["ms"])]
-                if variant == "sequential":
+                ts = [make_op(g, op, M, reused=(variant == "transformation-edited-in-place")) for op, M in zip(hist, r["ms"])]
+                if variant in ("sequential", "transformation-edited-in-place"):
                     y = x
                     for t in ts:
                         y = t * y
@@ -219,6 +223,14 @@ def replay_tcoll(groups):
                 if d is not None:
                     out.append(dict(site=site + "/pow0", stratum="nonpositive-power", case={**case, "pos": i}, expected=r0["xcanon"], observed=d))
                     break
+            # a collection derived from one that has already been inverted (expand_dims copies the object)
+            tc2 = tc.expand_dims(0)
+            inv2 = tc2.inverse()
+            want = np.asarray(tc.inverse().array)[None]
+            if np.asarray(inv2.array).shape != want.shape or not all(
+                    same_class(a.reshape(-1), b.reshape(-1)) for a, b in zip(np.asarray(inv2.array)[0], want[0])):
+                out.append(dict(site=site + "/expand_dims-then-inverse", stratum="inverse", case=case,
+                                expected={"shape": list(want.shape)}, observed={"shape": list(np.asarray(inv2.array).shape)}))
             z1, z2 = (tc ** 2) * x, tc * (tc * x)
             a1, a2 = np.asarray(coords_of(z1)) if abs_kind(z1) in ("point", "line", "plane", "line3") else np.asarray(z1.array), \
                 np.asarray(coords_of(z2)) if abs_kind(z2) in ("point", "line", "plane", "line3") else np.asarray(z2.array)
@@ -324,7 +336,7 @@ def run(ctx: Ctx):
         ctx.count(x["s"])
         if x["s"] != "general":
             ctx.nontrivial((x["d"], json.dumps(x["x"]), json.dumps(x["h"])))
-    ctx.cov["traces_validated_against_impl"] += len(recs) * 3 + len(gl) + len(tl)
+    ctx.cov["traces_validated_against_impl"] += len(recs) * 4 + len(gl) + len(tl)
     ctx.sample({k: recs[7][k] for k in ("d", "x", "h", "c")})
     ctx.sample({k: recs[-7][k] for k in ("d", "x", "h", "c")})
     # ---- code -> spec: recorded calls on larger coordinates, validated by TLC against Trace_Ops.tla
